@@ -18,6 +18,7 @@ import (
 	"verif/lww"
 	"verif/mc"
 	"verif/sched/drv"
+	fgate "verif/sched/gate"
 	"verif/sched/vrt"
 )
 
@@ -31,7 +32,7 @@ var workload = []lww.Batch{
 	{D("a"), D("c"), S(3)}, // delete-only: lands inside the merge window with one deviation
 	{I("a", 2), S(4)},
 }
-var ids = []string{"a", "b", "c", "d", "n", "zz"}
+var ids = append([]string{"d", "n"}, lww.FamilyIDs...)
 var keys = []string{"seq"}
 
 func modelAfter(q int) *lww.Model {
@@ -108,6 +109,70 @@ func body(keep int) func(c *drv.Ctx) {
 	}
 }
 
+// ---- gated workload families (word x gate menu incl. persister+merger pairs x numSnapshotsToKeep are
+// environment choices of the explorer): every batch in its own client thread, started when everything
+// the previous one set in motion has settled. After a clean Close every rollback point offered is
+// exercised (see after).
+func bodyGatedFamily(conf map[string]interface{}, words []string) func(c *drv.Ctx) {
+	menu := fgate.Menu() // quick: single gates; thorough: persister+merger pairs as well
+	if mc.Tier() == "thorough" {
+		menu = fgate.MenuPairs()
+	}
+	return func(c *drv.Ctx) {
+		word := words[vrt.Choose(len(words), "workload")]
+		spec := menu[vrt.Choose(len(menu), "gate")]
+		keep := []int{2, 10}[vrt.Choose(2, "numSnapshotsToKeep")]
+		wl := lww.BuildWord(word)
+		c.Data = wl
+		dir := c.Dir + "/idx"
+		var idx bleve.Index
+		vrt.Free(func() {
+			cf := bx.CopyConfig(conf)
+			if cf == nil {
+				cf = map[string]interface{}{}
+			}
+			cf["eventCallbackName"] = fgate.Name
+			cf["numSnapshotsToKeep"] = keep
+			var err error
+			idx, err = bleve.NewUsing(dir, bleve.NewIndexMapping(), scorch.Name, scorch.Name, cf)
+			if err != nil {
+				panic(err)
+			}
+			vrt.WaitIdle()
+		})
+		g := fgate.Arm(spec)
+		defer g.Disarm()
+		var wg vrt.WaitGroup
+		for j := 1; j <= len(wl); j++ {
+			j := j
+			wg.Add(1)
+			vrt.Go(func() {
+				defer wg.Done()
+				if err := lww.ExecBatch(idx, wl[j-1]); err != nil {
+					c.Fail("error:batch", "Batch %d: %v", j, err)
+				}
+			})
+			vrt.WaitIdle()
+			if g.Step() {
+				vrt.WaitIdle()
+			}
+		}
+		if g.Was() > 0 {
+			c.Count("executions_in_which_a_gate_parked_a_background_thread", 1)
+		}
+		g.Open()
+		wg.Wait()
+		vrt.WaitIdle()
+		c.Observe(fmt.Sprintf("wl=%s gate=%s keep=%d", word, spec.Label, keep))
+		c.Count("family_words_x_gates_run", 1)
+		vrt.Free(func() {
+			if err := idx.Close(); err != nil {
+				c.Fail("error:close", "Close: %v", err)
+			}
+		})
+	}
+}
+
 func copyDir(src, dst string) error {
 	return filepath.Walk(src, func(p string, fi os.FileInfo, err error) error {
 		if err != nil {
@@ -136,6 +201,17 @@ func copyDir(src, dst string) error {
 // after: the index is closed; every rollback point offered must name a state the index had and
 // restore exactly it.
 func after(c *drv.Ctx) {
+	wl := workload
+	if w, ok := c.Data.([]lww.Batch); ok {
+		wl = w
+	}
+	modelAfter := func(q int) *lww.Model {
+		m := lww.New()
+		for j := 0; j < q && j < len(wl); j++ {
+			m.Apply(wl[j])
+		}
+		return m
+	}
 	dir := c.Dir + "/idx"
 	pts, err := scorch.RollbackPoints(dir + "/store")
 	if err != nil {
@@ -153,8 +229,8 @@ func after(c *drv.Ctx) {
 			q, _ = strconv.Atoi(string(v))
 		}
 		qs = append(qs, fmt.Sprint(q))
-		if pi == 0 && q != len(workload) {
-			c.Fail("newest-point-is-not-last-persisted-state", "newest rollback point carries seq=%d, the last batch was %d", q, len(workload))
+		if pi == 0 && q != len(wl) {
+			c.Fail("newest-point-is-not-last-persisted-state", "newest rollback point carries seq=%d, the last batch was %d", q, len(wl))
 			return
 		}
 		cp := fmt.Sprintf("%s/rb%d", c.Dir, pi)
@@ -174,8 +250,28 @@ func after(c *drv.Ctx) {
 			}
 			if bad := modelAfter(q).Check(i2, ids, keys); len(bad) > 0 {
 				res = "state after rollback: " + strings.Join(bad, "; ")
+				i2.Close()
+				return
 			}
+			// the rolled-back index accepts a write, which survives a reopen
+			if err := i2.Index("post", lww.Body(2)); err != nil {
+				res = "write after rollback: " + err.Error()
+			}
+			vrt.WaitIdle()
 			i2.Close()
+			if res == "" {
+				i3, err := bleve.Open(cp)
+				if err != nil {
+					res = "reopen after rollback and a write: " + err.Error()
+					return
+				}
+				want := modelAfter(q)
+				want.Docs["post"] = 2
+				if bad := want.Check(i3, append([]string{"post"}, ids...), keys); len(bad) > 0 {
+					res = "state after rollback, a write and a reopen: " + strings.Join(bad, "; ")
+				}
+				i3.Close()
+			}
 		})
 		os.RemoveAll(cp)
 		if werr != "" {
@@ -191,7 +287,19 @@ func after(c *drv.Ctx) {
 }
 
 func Scenarios() []drv.Scenario {
+	d0 := []drv.Phase{{Bound: 0}}
+	words := lww.GatedWords(mc.Tier())
+	if mc.Tier() != "thorough" {
+		words = lww.Words("bdz", 2) // every rollback point of every execution is rolled back to and reopened: keep quick small
+	}
+	gdoc := "gated workload family: every word over the batch-shape alphabet x every member of the gate menu (single gates, persister+merger pairs) x numSnapshotsToKeep {2,10} (environment choices); after a clean Close EVERY rollback point offered is rolled back to on a copy, opened, compared with the model state its internal value names, written to and reopened"
 	return []drv.Scenario{
+		{Name: "sched:gated-family-unsafe-2-persister-workers", Doc: gdoc, After: after, Class: "sched", Quick: d0, Thorough: d0,
+			Body: bodyGatedFamily(map[string]interface{}{"unsafe_batch": true, "scorchPersisterOptions": map[string]interface{}{"NumPersisterWorkers": 2, "MaxSizeInMemoryMergePerWorker": 1}}, words)},
+		{Name: "sched:gated-family-safe-default-merges", Doc: gdoc, After: after, Class: "sched", Thorough: d0,
+			Body: bodyGatedFamily(nil, words)},
+		{Name: "sched:gated-family-safe-nomerge", Doc: gdoc, After: after, Class: "sched", Thorough: d0,
+			Body: bodyGatedFamily(map[string]interface{}{"scorchMergePlanOptions": bx.NoMergePlan}, words)},
 		{Name: "sched:unsafe-inmemory-merge-window-keep10", Body: body(10), After: after, Class: "sched",
 			Quick: []drv.Phase{{Bound: 1, Filter: "restricted"}}, Thorough: []drv.Phase{{Bound: 1}, {Bound: 2, Filter: "restricted"}}},
 		{Name: "sched:unsafe-inmemory-merge-window-keep2", Body: body(2), After: after, Class: "sched",
